@@ -32,7 +32,8 @@ def fresh_check(root: str, follow: str, files: list[str]) -> dict[str, Any]:
     return r
 
 
-def _daemon_child(root: str, steps: list[dict[str, Any]], follow: str, files: list[str], wfd: int, use_cache: bool) -> None:
+def _daemon_child(root: str, steps: list[dict[str, Any]], follow: str, files: list[str], wfd: int, use_cache: bool,
+                  cache_world: dict[str, str] | None = None) -> None:
     out: dict[str, Any] = {"responses": []}
     try:
         os.chdir(root)
@@ -43,6 +44,13 @@ def _daemon_child(root: str, steps: list[dict[str, Any]], follow: str, files: li
         o = W.make_options(root, None)
         o.follow_imports = follow
         o.local_partial_types = True
+        if use_cache:
+            # start from a fine-grained cache written by an ordinary `mypy --cache-fine-grained` run on an EARLIER state of the files
+            o.use_fine_grained_cache = True
+            o.incremental = True
+            o.cache_dir = os.path.join(root, "fgcache")
+            o.fixed_format_cache = True
+            o.sqlite_cache = False
         # make build.build find the tree's modules the way the drivers do (fixtures + tree root)
         orig_build = B.build
 
@@ -53,6 +61,8 @@ def _daemon_child(root: str, steps: list[dict[str, Any]], follow: str, files: li
         DS.mypy.build.build = build  # type: ignore[attr-defined]
         server = Server(o, os.path.join(root, ".status.json"))
         t = W.Tree(root)
+        if use_cache:
+            t.world = dict(cache_world or {})     # the files are as the cache-building run left them
         for st in steps:
             t.world = dict(st.get("before", t.world))
             t.tick = st["tick"]
@@ -78,9 +88,18 @@ def _daemon_child(root: str, steps: list[dict[str, Any]], follow: str, files: li
     os._exit(0)
 
 
-def run_daemon_history(root: str, worlds: list[dict[str, str]], follow: str, files: list[str], recheck: bool = False) -> dict[str, Any]:
-    """Apply worlds one after another (a request after every step) to one real Server in a forked child."""
+def run_daemon_history(root: str, worlds: list[dict[str, str]], follow: str, files: list[str], recheck: bool = False,
+                       cache_world: dict[str, str] | None = None) -> dict[str, Any]:
+    """Apply worlds one after another (a request after every step) to one real Server in a forked child.
+    cache_world: first write that world, build a fine-grained cache from it with a batch run, then start the daemon on it."""
     steps = []
+    if cache_world is not None:
+        t0 = W.Tree(root)
+        t0.tick = 500
+        t0.apply(cache_world)
+        present = [(f, f[:-3]) for f in files if os.path.exists(os.path.join(root, f))]
+        W.run_build(root, cache_dir=os.path.join(root, "fgcache"), record=False, sources=present,
+                    extra_opts={"follow_imports": follow, "local_partial_types": True, "cache_fine_grained": True})
     t = W.Tree(root)   # only to compute ticks deterministically; the child re-applies
     tick = 1000
     for i, w in enumerate(worlds):
@@ -92,7 +111,7 @@ def run_daemon_history(root: str, worlds: list[dict[str, str]], follow: str, fil
     if pid == 0:
         os.close(rfd)
         try:
-            _daemon_child(root, steps, follow, files, wfd, False)
+            _daemon_child(root, steps, follow, files, wfd, cache_world is not None, cache_world)
         finally:
             os._exit(70)
     os.close(wfd)
@@ -117,3 +136,38 @@ def norm_fresh(r: dict[str, Any]) -> tuple[Any, ...]:
     for m in r["messages"]:
         per.setdefault(m.split(":", 1)[0], []).append(m)
     return (r["status"], tuple(sorted((f, tuple(v)) for f, v in per.items())))
+
+
+# ----------------------------------------------------------------------------- catalogue D2: more constructs
+# c: four independent interface features; b: several ways of depending on c; a: uses of b
+def _c2(ret: int, attr: int, params: int, base: int) -> str:
+    return ("class B1:\n    def m(self) -> int:\n        return 1\n"
+            "class B2:\n    def n(self) -> int:\n        return 1\n"
+            "class K(%s):\n    x: %s = %s\n"
+            "def f() -> %s:\n    return %s\n"
+            "def g(%s) -> int:\n    return 1\n"
+            "v: int = 1\n") % (("B1", "B2")[base], ("int", "str")[attr], ("0", "''")[attr], ("int", "str")[ret], ("1", "''")[ret],
+                                ("p: int", "p: int, q: int")[params])
+
+
+D2: dict[str, dict[str, str]] = {
+    "c": {"k%d%d%d%d" % (r, t, p, b): _c2(r, t, p, b) for r in (0, 1) for t in (0, 1) for p in (0, 1) for b in (0, 1)},
+    "b": {
+        "star": "from c import *\n",
+        "sub": "import c\nclass L(c.K):\n    def use(self) -> int:\n        return self.x + self.m()\n",
+        "call": "import c\ndef h() -> int:\n    return c.g(1)\ny = c.f()\n",
+        "deco": "import c\nfrom typing import Callable\ndef d(fn: Callable[[], int]) -> Callable[[], int]:\n    return fn\n@d\ndef w() -> int:\n    return c.f()\nclass L(c.K): pass\n",
+    },
+    "a": {
+        "ustar": "import b\nz: int = b.f()\nk = b.K()\nq: int = k.x\n",
+        "usub": "import b\ndef t() -> int:\n    return b.L().x\n",
+        "ucall": "import b\nr: int = b.y\ns: int = b.h()\n",
+    },
+}
+for _m, _vs in D2.items():
+    for _k, _t in _vs.items():
+        W.VARIANTS[_m][_k] = _t
+
+
+def d2_worlds() -> list[dict[str, str]]:
+    return [{"a": a, "b": b, "c": c} for a in D2["a"] for b in D2["b"] for c in D2["c"]]
